@@ -68,6 +68,8 @@ structure Quirks where
   renameSequential : Bool := false
   /-- decopt splices a re-synthesised section in although the re-synthesis renamed a qubit -/
   spliceIgnoresRename : Bool := false
+  /-- `UnboundQlassf.bind` injects the bare literal: the declared `Parameter[T]` is dropped -/
+  bindDropsType : Bool := false
   deriving Repr, DecidableEq, Inhabited
 
 def Quirks.none : Quirks := {}
@@ -102,6 +104,7 @@ def Quirks.ofList (l : List String) : Quirks :=
     argIndexFromName := l.contains "argIndexFromName"
     subsSequential := l.contains "subsSequential"
     renameSequential := l.contains "renameSequential"
-    spliceIgnoresRename := l.contains "spliceIgnoresRename" }
+    spliceIgnoresRename := l.contains "spliceIgnoresRename"
+    bindDropsType := l.contains "bindDropsType" }
 
 end QV
